@@ -1105,3 +1105,13 @@ impl Ctx {
         }
     }
 }
+
+impl Ctx {
+    /// first address of the last step's Bus::write log whose content now differs from the shadow image
+    pub fn wlog_first_effective(&self) -> Option<u32> {
+        self.wlog.iter().copied().find(|&a| self.m.peek(a).is_some() && self.m.peek(a) != self.m.peek_shadow(a))
+    }
+    pub fn wlog_all(&self) -> Vec<u32> {
+        self.wlog.iter().copied().filter(|&a| self.m.peek(a).is_some()).collect()
+    }
+}
